@@ -709,6 +709,21 @@ def _bool_eval(n, env):
     raise AnalysisError(f'cannot evaluate {norm(n)}')
 
 
+def _filter_kind(program, f, call):
+    """'filter' / 'filterfalse' for a call of the builtin or of
+    itertools.filterfalse under any import alias, else None."""
+    d = dotted(call.func) or ''
+    if d == 'filter':
+        return 'filter'
+    if d in ('filterfalse', 'itertools.filterfalse'):
+        return 'filterfalse'
+    r = program.lookup(f.module, d) if d else None
+    if r and r[0] == 'external' and str(r[1]).endswith(
+            'itertools.filterfalse'):
+        return 'filterfalse'
+    return None
+
+
 def check_readers(program, rep):
     world = program.cls('World')
     # entity_exists: truth table over (owns components, awaiting deletion),
@@ -783,11 +798,10 @@ def check_readers(program, rep):
             if dotted(base) == E and view == 'keys' and norm(v.elt) == norm(
                     g.target):
                 var, tests = norm(g.target), list(g.ifs)
-        elif isinstance(v, ast.Call) and dotted(v.func) in (
-                'filter', 'filterfalse', 'itertools.filterfalse') \
+        elif isinstance(v, ast.Call) and _filter_kind(program, f, v) \
                 and len(v.args) == 2 and dotted(unwrap_iter(v.args[1])[0]) \
                 == E:
-            neg = not dotted(v.func).endswith('filterfalse')
+            neg = _filter_kind(program, f, v) == 'filter'
             p0 = v.args[0]
             var = '_e'
             if norm(p0) == f'{DEAD}.__contains__':
